@@ -19,8 +19,10 @@ Alphabet58 == <<49, 50, 51, 52, 53, 54, 55, 56, 57,                             
 InAlphabet(c) == \E i \in 1..58 : Alphabet58[i] = c
 DigitOf(c) == (CHOOSE i \in 1..58 : Alphabet58[i] = c) - 1
 
-RECURSIVE Leading(_, _)
-Leading(s, z) == IF Len(s) > 0 /\ s[1] = z THEN 1 + Leading(Tail(s), z) ELSE 0
+\* the number of leading elements equal to z (by index: linear in the length, byte strings of thousands of zeros are inputs too)
+RECURSIVE LeadingFrom(_, _, _)
+LeadingFrom(s, z, i) == IF i <= Len(s) /\ s[i] = z THEN LeadingFrom(s, z, i + 1) ELSE i - 1
+Leading(s, z) == LeadingFrom(s, z, 1)
 Drop(s, n) == SubSeq(s, n + 1, Len(s))
 Zeros(n) == [i \in 1..n |-> 0]
 
